@@ -8,6 +8,7 @@ import (
 	"github.com/brocaar/lorawan"
 	"github.com/brocaar/lorawan/band"
 
+	"verifmc/engine"
 	"verifmc/spec"
 )
 
@@ -140,4 +141,29 @@ func farInts() []int {
 	}
 	out = append(out, int(^uint(0)>>1), -int(^uint(0)>>1)-1, 1<<62, 255, 256*3+1)
 	return out
+}
+
+// bandConstructionStability: a band configuration is a value of the Regional Parameters; 64 objects
+// built for the same (name, repeater, dwell-time) are indistinguishable - their hook snapshots (all
+// tables and channel lists) print alike. A table assembled in an order the runtime randomises (map
+// iteration) comes out differently in some constructions, which a single construction per
+// configuration sees only with that probability.
+func bandConstructionStability(r *engine.Run) {
+	cfgs := allBandCfgs(true)
+	const builds = 64
+	r.Rule += fmt.Sprintf(" Construction stability: every configuration (%d) built %d times, the hook snapshots compared.", len(cfgs), builds)
+	r.PartDims("construction-stability", []string{fmt.Sprintf("config:%d", len(cfgs)), fmt.Sprintf("constructions:%d", builds)}, uint64(len(cfgs)), func(c *engine.Case) {
+		cfg := cfgs[c.Index]
+		first := deepPrint(snapOf(newBand(cfg)))
+		c.NonTrivial()
+		for k := 1; k < builds; k++ {
+			c.Eval()
+			if got := deepPrint(snapOf(newBand(cfg))); got != first {
+				d := firstDiff(first, got)
+				c.Fail(fmt.Sprintf("construction/%s/instances-of-one-configuration-differ", regionOf(cfg.name).Name), fmt.Sprintf("%v: construction number %d differs from the first one: %s", cfg, k+1, d), nil)
+				return
+			}
+		}
+		c.Outcome("construction-stability/identical")
+	})
 }
